@@ -34,6 +34,12 @@ def gen(rng, tier):
             sc2, bc2 = streamgen.stream_case(fam, cv[0], "plain", [], q3), streamgen.bytesc_case(fam, cv[0], q3)
             _pairs[sc2] = (bc2, q3, cv[0], fam)
             cases += [sc2, bc2]
+        vv = streamgen.version_link_variant(rng, data, meta, info)
+        if vv:                    # version sections naming different string tables
+            q3 = ["ehdr", "shdrs", "phdrs"] + vv[1]
+            sc2, bc2 = streamgen.stream_case(fam, vv[0], "plain", [], q3), streamgen.bytesc_case(fam, vv[0], q3)
+            _pairs[sc2] = (bc2, q3, vv[0], fam)
+            cases += [sc2, bc2]
         if i % 5 == 0:            # an empty program header table declared exactly at EOF (and one past it)
             for off in (len(data), len(data) + 1, len(data) - 1):
                 d2 = elfgen.patch(elfgen.patch(elfgen.patch(data, meta, "ehdr", "e_phoff", off), meta, "ehdr", "e_phnum", 0),
